@@ -2,6 +2,7 @@ use crate::engine::{Ctx, Fail};
 
 pub mod c03;
 pub mod c04;
+pub mod c06;
 pub mod c08;
 pub mod c12;
 pub mod c14;
@@ -10,6 +11,7 @@ pub fn run(ctx: &Ctx) -> bool {
     match ctx.id.as_str() {
         "C03" => c03::run(ctx),
         "C04" => c04::run(ctx),
+        "C06" => c06::run(ctx),
         "C08" => c08::run(ctx),
         "C12" => c12::run(ctx),
         "C14" => c14::run(ctx),
@@ -23,6 +25,7 @@ fn replay_one(ctx: &Ctx, sub: &str, input: &serde_json::Value) -> Option<Result<
     Some(match ctx.id.as_str() {
         "C03" => c03::replay(ctx, input),
         "C04" => c04::replay(ctx, sub, input),
+        "C06" => c06::replay(ctx, sub, input),
         "C08" => c08::replay(ctx, sub, input),
         "C12" => c12::replay(ctx, sub, input),
         "C14" => c14::replay(ctx, input),
